@@ -111,10 +111,25 @@ type MarginProbe struct {
 	Prefix int    `json:"prefix"`
 	// G > 0: a single history (replay of one member of the family)
 	G int `json:"g,omitempty"`
+	// Trained: the family of sim.trainedPayload (adaptive model driven to its
+	// limits first) instead of the "surprise" family
+	Trained bool `json:"trained,omitempty"`
+}
+
+// matchEnd is the offset, behind the flush point, at which the expensive
+// match of member g ends.
+func (p *MarginProbe) matchEnd(g int) int {
+	if p.Trained {
+		return sim.Payload{Kind: "trained", A: p.Prefix, N: g}.Len() - p.Prefix - 300
+	}
+	return g + 150*6 + 160 + 273
 }
 
 func (p *MarginProbe) history(g int) *WCase {
 	pl := sim.Payload{Kind: "surprise", A: p.Prefix, N: g, Seed: p.Seed}
+	if p.Trained {
+		pl.Kind = "trained"
+	}
 	return &WCase{Format: "lzma2", L2: &L2Cfg{NoProps: true, DictCap: 2 << 20, BufSize: 4096}, Payload: pl,
 		Ops: []Op{{K: "w", N: p.Prefix}, {K: "f"}, {K: "w", N: pl.Len() - p.Prefix}, {K: "c"}}, RDict: 2 << 20}
 }
@@ -150,7 +165,7 @@ func runMarginProbe(c *WCase, x *sim.Ctx) *sim.Violation {
 		x.Step("sink", sub.Counters["steps.sink"])
 		if v != nil {
 			nc := *c
-			nc.Probe = &MarginProbe{Seed: p.Seed, Prefix: p.Prefix, G: g}
+			nc.Probe = &MarginProbe{Seed: p.Seed, Prefix: p.Prefix, G: g, Trained: p.Trained}
 			v.Narrow = &nc
 			v.Detail = "margin probe G=" + itoa(g) + ": " + v.Detail
 		}
@@ -159,8 +174,11 @@ func runMarginProbe(c *WCase, x *sim.Ctx) *sim.Violation {
 	if p.G > 0 {
 		return one(p.G)
 	}
-	inside := func(g, u1 int) bool { return u1 >= g+150*6+160+273 }
+	inside := func(g, u1 int) bool { return u1 >= p.matchEnd(g) }
 	lo, hi := 60000, 66500 // long match inside the chunk for lo, not for hi
+	if p.Trained {
+		lo, hi = 25000, 50000
+	}
 	if u := u1(lo); u < 0 || !inside(lo, u) {
 		if v := one(lo); v != nil {
 			return v
@@ -183,7 +201,7 @@ func runMarginProbe(c *WCase, x *sim.Ctx) *sim.Violation {
 	x.Probe("expensive-operation-at-the-compressed-limit")
 	if os.Getenv("VERIF_DEBUG") != "" {
 		for g := lo - 3; g <= lo+12; g++ {
-			fmt.Printf("margin probe: G=%d first chunk after the flush holds %d bytes (long match at %d..%d)\n", g, u1(g), g+150*6+160, g+150*6+160+273)
+			fmt.Printf("margin probe: G=%d first chunk after the flush holds %d bytes (long match ends at %d)\n", g, u1(g), p.matchEnd(g))
 		}
 	}
 	for g := lo - 3; g <= lo+12; g++ {
@@ -332,6 +350,9 @@ func init() {
 		Gen: func(r *sim.Rng, tier string, idx int) *WCase {
 			if (tier == "quick" && idx%25000 == 777) || (tier == "thorough" && idx%40000 == 777) {
 				return &WCase{Format: "lzma2", Probe: &MarginProbe{Seed: r.Uint64(), Prefix: r.Range(1150000, 1250000)}}
+			}
+			if (tier == "quick" && idx%25000 == 778) || (tier == "thorough" && idx%40000 == 778) {
+				return &WCase{Format: "lzma2", Probe: &MarginProbe{Seed: r.Uint64(), Prefix: r.Range(150000, 250000), Trained: true}}
 			}
 			c := genL2WCase(r, tier, true)
 			if isVeryFarCase(tier, idx) {
